@@ -39,7 +39,7 @@ def cfg_spec(cfg):
     kinds, e, sets, rules = cfg[:4]
     ss = ",".join("+".join("%s.%s" % (k, gens.hx(gens.raw_name(n))) for k, n in ents) if ents else "-" for ents in sets)
     rs = ",".join("%s:%d:%d:%s" % r for r in rules)
-    return "U=%s;E=%d;S=%s;R=%s%s" % (kinds, e, ss, rs, ";T=1" if len(cfg) > 4 and cfg[4] else "")
+    return "U=%s;E=%d;S=%s;R=%s%s" % (kinds, e, ss, rs, ";T=1;W=1" if len(cfg) > 4 and cfg[4] else "")
 
 
 def opt_rr(rng, size=None, options=None):
@@ -272,7 +272,7 @@ def handle_gen(rng, tier):
             q, name, qtype, qclass = gen_query(rng, cfg, idx)
             l = rng.choice(["udp", "udp", "tcp", "gnet", "http-get", "http-post", "fasthttp-get", "fasthttp-post"])
             if tls_on and rng.random() < 0.6:
-                l = rng.choice(["tls", "https-get", "https-post", "quic", "quic"])
+                l = rng.choice(["tls", "https-get", "https-post", "quic", "quic", "udpmr", "udpmr"])
             client = "-"
             if l.startswith("http") or l.startswith("fasthttp"):
                 client = rng.choice(["-", "192.0.2.%d" % rng.randrange(256), "203.0.113.7", "2001:db8:1:2:3:4:5:%x" % rng.randrange(65536),
